@@ -214,6 +214,9 @@ class World(BaseWorld):
                             'abort_at': ro.choice([None, None, 0, 1, 3, 10, 30])})
             if ro.random() < 0.15:
                 ops.append({'op': 'check'})
+            if ro.random() < 0.3:
+                # the user evaluates one of the System's own omega objects on the current grid (the plotting idiom of the docstrings)
+                ops.append({'op': 'peek_omega', 'pair': ro.randrange(6)})
             if use_file and ro.random() < 0.35:
                 # the omega file is rewritten (or torn, lost ...) between createPRISM and the first use of that PRISM object
                 w_ = self.gen_write(ro)
@@ -687,6 +690,17 @@ class World(BaseWorld):
                 if handles:
                     ctx.probe('file_rewritten_between_creates')
                 edits_since_create[0] += 1
+            elif name == 'peek_omega':
+                prs = sysgen.pairs(types)
+                a, b = prs[op['pair'] % len(prs)]
+                if rec['domain'] is not None and rec['pairs'][sysgen.pkey(a, b)]['omega'] is not None:
+                    try:
+                        with warnings.catch_warnings():
+                            warnings.simplefilter('ignore')
+                            system.omega[fresh_key(a), fresh_key(b)].calculate(system.domain.k)
+                        ctx.probe('user_evaluated_system_omega')
+                    except Exception:
+                        ctx.probe('user_evaluated_system_omega_raised')
             elif name == 'check':
                 miss = missing(rec)
                 try:
@@ -809,7 +823,7 @@ class World(BaseWorld):
                 'missing_only_closure', 'missing_only_omega', 'create_or_solve_after_edit_after_create', 'inplace_domain_length_edit',
                 'inplace_domain_edit', 'file_rewritten_between_creates', 'solve_old_handle_after_edit', 'list_x_list_assignment',
                 'converged_solve_compared', 'solve_bit_identical_to_fresh', 'sweep_guess_previous_solution', 'stale_table_at_create',
-                'rank1', 'rank2', 'rank3', 'handle_created', 'solve_aborted_then_retried', 'untouched_handle_solved_later', 'list_x_single_assignment']
+                'rank1', 'rank2', 'rank3', 'handle_created', 'solve_aborted_then_retried', 'untouched_handle_solved_later', 'list_x_single_assignment', 'user_evaluated_system_omega']
 
     def rule(self):
         return ('Each run = one seed -> an empty System (1-3 types) + a history: the assignments that establish a drawn target system (single keys '
